@@ -101,7 +101,7 @@ def cxxio_pass(prop, tier, seed):
     with ThreadPoolExecutor(nw) as ex:
         outs = list(ex.map(work, range(nw)))
     shutil.rmtree(root, ignore_errors=True)
-    names = ["cxx_cases", "cxx_violations", "cxx_sink_calls", "cxx_bytes", "cxx_runs", "cxx_stops", "cxx_string_sinks", "cxx_timeouts"]
+    names = ["cxx_cases", "cxx_violations", "cxx_sink_calls", "cxx_bytes", "cxx_runs", "cxx_stops", "cxx_string_sinks", "cxx_timeouts", "cxx_looks_under_mutex"]
     obs = {n: 0 for n in names}
     viols = []
     for rc, out, err in outs:
@@ -469,13 +469,13 @@ CHECKS = {
                               "prefix": ["valgrind", "-q", "--error-exitcode=99", "--num-callers=12"]})], "exploration",
         "reproc_drain / reproc_run_ex over children writing 0..1 MB in 1-5 chunks to both streams, closing streams before "
         "exiting, with err in {pipe, stdout, parent, discard}; recording sinks (every call logged and content-verified), "
-        "sinks failing at call k with positive/negative results, string sinks with/without prefix, realloc failing at "
+        "sinks failing at call k with positive/negative results (including the error values the library itself gives a meaning to: closed stream, timeout, try-again), string sinks with/without prefix, realloc failing at "
         "growth step k, deadlines before/during/after the output, second drain on closed streams; plus a C++ pass: reproc::drain / "
         "reproc::run (drain.hpp, run.hpp) with recording lambdas, failing sinks, sink::string / thread_safe::string / ostream / "
-        "discard against free-running children on the real library; non-trivial = a drain/run was compared",
+        "discard against free-running children on the real library (the thread-safe sink while another thread keeps taking the mutex and watches the strings); non-trivial = a drain/run was compared",
         {"drains": 1500, "sink_calls": 10000, "closing_calls": 900, "sink_failures": 50, "string_sinks": 150,
          "realloc_faults_fired": 50, "timeouts": 50, "runs": 300, "cxx_cases": 400, "cxx_sink_calls": 1500,
-         "cxx_runs": 100, "cxx_string_sinks": 50, "cxx_timeouts": 50},
+         "cxx_runs": 100, "cxx_string_sinks": 50, "cxx_timeouts": 50, "cxx_looks_under_mutex": 100},
         assumptions=KERNEL_TRUST + ["the C++ pass runs free-running helper children in real time: only time-independent facts are asserted (plus 'an expired deadline with open streams yields timed_out')"],
         extra=cxxio_pass),
     "C17": scen_check(
